@@ -59,6 +59,38 @@ def _window(name, f, fc, b):
     return w, inside, margin
 
 
+def _sig_bits(x):
+    """number of significant bits of the float x (0 for 0)."""
+    from fractions import Fraction
+    n = abs(Fraction(float(x)).numerator)
+    while n and n % 2 == 0:
+        n //= 2
+    return n.bit_length()
+
+
+def exact_edge_ties(f, fc, b):
+    """Boolean mask: samples of f that lie EXACTLY (in rational arithmetic on the float values) on the edge
+    |f - fc| = b/2 of a linear window, with f, fc and b all short dyadic numbers of similar magnitude - so that every
+    direct floating-point formulation of the comparison (f - fc, fc + b/2, 2|f - fc| ...) is computed without rounding.
+    There the only thing that decides is the convention, and the support of the windows is closed (|f - fc| <= b/2),
+    as every operator of the library has it; elsewhere a sample within EDGE_TOL of an edge stays two-valued."""
+    from fractions import Fraction
+    f = np.asarray(f, dtype=float)
+    out = np.zeros(f.shape, dtype=bool)
+    if not (np.isfinite(fc) and np.isfinite(b)) or b <= 0 or _sig_bits(fc) > 36 or _sig_bits(b) > 36:
+        return out
+    C, H = Fraction(float(fc)), Fraction(float(b)) / 2
+    for i in np.flatnonzero(np.abs(np.abs(f - fc) - b / 2.0) <= 1e-9 * b):
+        x = float(f[i])
+        if x <= 0 or _sig_bits(x) > 36:
+            continue
+        mags = [abs(x), abs(float(fc)), float(b)]
+        if max(mags) / min(mags) > 4096:
+            continue
+        out[i] = abs(Fraction(x) - C) == H
+    return out
+
+
 def _half_width_hz(name, fc, b):
     """Conservative bound of the window in Hz around fc: (f_lo, f_hi)."""
     if name == "konno_and_ohmachi":
@@ -148,6 +180,8 @@ def smooth(name, frequencies, spectrum, fcs, bandwidth):
         ok = valid[i0:i1]
         near_centre = ok & (np.abs(fs - fc) < 1e-6) & (fs != fc) & (name in ("konno_and_ohmachi", "parzen"))
         amb_edge = ok & (margin < EDGE_TOL)
+        if name == "linear_rectangular" and amb_edge.any():
+            amb_edge &= ~exact_edge_ties(fs, fc, bandwidth)      # exact ties: closed support, decided (see there)
         sure = ok & inside & ~amb_edge & ~near_centre
         seg = s[:, i0:i1]
         w = np.where(np.isfinite(w), w, 0.0)
